@@ -9,6 +9,7 @@ import (
 	"path/filepath"
 	"strings"
 	"sync"
+	"verif/gen"
 
 	"verif/ev"
 	"verif/jt"
@@ -93,6 +94,31 @@ func C09() int {
 			}
 		}
 	}
+	// one literal per control / format code point (C0, DEL, C1 incl. the 8-bit CSI/OSC introducers,
+	// bidi and zero-width marks, line separators, BOM, private use, last code point): what `decrypt`
+	// prints must be exactly these characters, not a sanitised spelling of them
+	{
+		var cps []rune
+		for r := rune(0); r <= 0x1f; r++ {
+			cps = append(cps, r)
+		}
+		for r := rune(0x7f); r <= 0xa0; r++ {
+			cps = append(cps, r)
+		}
+		cps = append(cps, 0xad, 0x200b, 0x200e, 0x202e, 0x2028, 0x2029, 0xfeff, 0xfffd, 0xe000, 0x1f600, 0x10ffff)
+		for lo := 0; lo < len(cps); lo += 12 {
+			f := jt.ObjN()
+			for k := lo; k < lo+12 && k < len(cps); k++ {
+				tok := g.Token()
+				v := jt.StrN(tok[:5] + string(cps[k]) + "[31m" + tok[5:]).With(&jt.Tag{Role: jt.Sens, Class: "ctrl", Slot: "ctrl-char"})
+				f.Set(fmt.Sprintf("cp%04x", cps[k]), v)
+			}
+			cmd := jt.ObjN("find", jt.StrN("c"), "filter", f, "$db", jt.StrN("dbctrl"))
+			cs := g.Case(gen.CaseOpts{Verb: "find", Carrier: "command", Comp: "COMMAND", DB: "dbctrl", Coll: "c", Cmd: cmd})
+			items = append(items, mkItem(cs, 0)) // plain style: the characters themselves, only mandatory escapes
+		}
+		c.Set("control_and_format_code_points_planted", len(cps))
+	}
 	budget := pickN(c, 450, 5000)
 	type leaf struct {
 		key          int
@@ -163,7 +189,22 @@ func C09() int {
 				continue
 			}
 			WalkTagged(items[lo+i].Tree, t, false, func(o TObs) {
-				if o.Tag == nil || !o.Own || o.Tag.Role != jt.Sens || o.In.K != jt.Str || o.Mismatch != "" {
+				if o.Mismatch != "" {
+					// the output has another shape here: the sensitive strings below this node have no
+					// counterpart that could decrypt back to them
+					lost := 0
+					o.In.Walk(nil, func(_ []string, n *jt.Node) {
+						if n.T != nil && n.T.Role == jt.Sens && n.K == jt.Str {
+							lost++
+						}
+					})
+					if lost > 0 {
+						c.Violation("no-counterpart|"+opSig(o.Path), fmt.Sprintf("%d sensitive string(s) below %s have no counterpart in the --encrypt output (shape differs: %s)", lost, jt.PathStr(o.Path), o.Mismatch),
+							map[string]any{"kind": "redact-line", "flags": []string{"--encrypt", "-q", "KEYFILE"}, "input": string(items[lo+i].Raw), "output": string(ol)})
+					}
+					return
+				}
+				if o.Tag == nil || !o.Own || o.Tag.Role != jt.Sens || o.In.K != jt.Str {
 					return
 				}
 				mu.Lock()
@@ -225,6 +266,11 @@ func C09() int {
 	perm := rng.Perm(len(leaves))
 	if len(perm) > budget {
 		perm = perm[:budget]
+	}
+	for i, l := range leaves {
+		if l.class == "ctrl" { // every control-character literal goes through the decrypt command
+			perm = append(perm, i)
+		}
 	}
 	kdir := s.TempDir("c09keys")
 	for ki, k := range keys {
